@@ -9,7 +9,6 @@ use ndarray_rand::rand::{self, SeedableRng};
 use rand_xoshiro::Xoshiro256Plus;
 #[cfg(feature = "serde")]
 use serde_crate::{Deserialize, Serialize};
-use std::sync::atomic::{AtomicU64, Ordering::Relaxed};
 
 #[cfg_attr(
     feature = "serde",
@@ -189,39 +188,46 @@ fn k_means_para<R: Rng, F: Float, D: Distance<F>>(
     weighted_k_means_plusplus(dist_fn, n_clusters, final_candidates, weights.view(), rng)
 }
 
-/// Generate candidate centroids by sampling each observation in parallel using a seedable RNG in
-/// every thread. Average number of generated candidates should equal `multiplier`.
+/// Generate candidate centroids by sampling each observation in parallel. Average number of generated
+/// candidates should equal `multiplier`.
 #[allow(clippy::extra_unused_type_parameters)]
 fn sample_subsequent_candidates<R: Rng, F: Float>(
     dists: &Array1<F>,
     multiplier: F,
     seed: u64,
 ) -> Vec<usize> {
+    // Observations are sampled in blocks of this many, one RNG per block
+    const BLOCK: usize = 256;
     // This sum can also be parallelized
     let cost = dists.sum();
-    // Using an atomic allows the seed to be modified while seeding RNGs in parallel
-    let seed = AtomicU64::new(seed);
 
-    // Use `map_init` to generate an unique RNG for each Rayon thread, allowing both RNG creation
-    // and random number generation to be parallelized. Alternative approaches included generating
-    // an RNG for every observation and sequentially taking `multiplier` samples from a weighted
-    // index of `dists`. Generating for every observation was too slow, and the sequential approach
-    // yielded lower-quality centroids, so this approach was chosen. See PR #108 for more details.
+    // Every block of observations gets its own RNG, seeded from `seed` and the index of the block, so
+    // that both RNG creation and random number generation are parallelized while the result depends
+    // only on `seed`, not on the number of Rayon threads or on how the work happens to be split
+    // between them. Alternative approaches included generating an RNG for every observation and
+    // sequentially taking `multiplier` samples from a weighted index of `dists`. Generating for every
+    // observation was too slow, and the sequential approach yielded lower-quality centroids, so this
+    // approach was chosen. See PR #108 for more details.
     dists
-        .axis_iter(Axis(0))
+        .axis_chunks_iter(Axis(0), BLOCK)
         .into_par_iter()
         .enumerate()
-        .map_init(
-            // XXX we can use `jump` to have differently seeded RNGs instead of reseeding each time
-            || Xoshiro256Plus::seed_from_u64(seed.fetch_add(1, Relaxed)),
-            move |rng, (i, d)| {
-                let d = *d.into_scalar();
-                let rand = F::cast(rng.gen_range(0.0..1.0));
-                let prob = multiplier * d / cost;
-                (i, rand, prob)
-            },
-        )
-        .filter_map(|(i, rand, prob)| if rand < prob { Some(i) } else { None })
+        .flat_map_iter(|(block, chunk)| {
+            let mut rng = Xoshiro256Plus::seed_from_u64(seed.wrapping_add(block as u64));
+            chunk
+                .iter()
+                .enumerate()
+                .filter_map(|(i, &d)| {
+                    let rand = F::cast(rng.gen_range(0.0..1.0));
+                    let prob = multiplier * d / cost;
+                    if rand < prob {
+                        Some(block * BLOCK + i)
+                    } else {
+                        None
+                    }
+                })
+                .collect::<Vec<_>>()
+        })
         .collect()
 }
 
